@@ -187,6 +187,6 @@ def run(rep, tier):
     cfgs = ["x86"] if tier == "quick" else ["x86", "arm", "wasm"]
     for cfg, prog in programs(cfgs):
         rep.set_cfg(cfg)
-        transfer_mono(rep, prog, "C16.mono")
-        gaps(rep, prog, "C16.gaps")
-        reject(rep, prog, "C16.reject")
+        rep.call(transfer_mono, rep, prog, "C16.mono")
+        rep.call(gaps, rep, prog, "C16.gaps")
+        rep.call(reject, rep, prog, "C16.reject")
